@@ -10,7 +10,7 @@ use serde_json::{json, Value};
 
 pub const LEVEL: &str = "exploration";
 pub const EXHAUSTIVE: bool = false;
-pub const RULE: &str = "generated: C01's in-contract histories restricted to selection bytes valid for the previously returned list (zero / front-end / any valid index); every suggestion returned by a key or backspace event is read out completely. Oracle: list => len >= 1, preselected index < len, every index readable as candidate and as pre-edit text; single => pre-edit readable; auxiliary text == reference composition (phonetic: ASCII characters of the keys since the last terminating event minus backspaces, via the header-derived table; fixed: the single string of a twin context with suggestions off fed the same events). Plus a sweep: words with long lists x every valid selection x the 13 selection-preserving punctuation keys. Non-trivial: a list of length >= 3 returned after a punctuation key with non-zero selection, or a backspace returned a list; distinct by hash of the concrete trace (sweep: word, selection, key).";
+pub const RULE: &str = "generated: C01's in-contract histories restricted to selection bytes valid for the previously returned list (zero / front-end / any valid index); every suggestion returned by a key or backspace event is read out completely. Oracle: list => len >= 1, preselected index < len, every index readable as candidate and as pre-edit text; single => pre-edit readable; auxiliary text == reference composition (phonetic: ASCII characters of the keys since the last terminating event minus backspaces, via the header-derived table; fixed: the single string of a twin context with suggestions off fed the same events since the last session boundary - the twin is replaced by a brand-new context at every commit, finish, ctrl-backspace and backspace that returns an empty suggestion). Plus a sweep: words with long lists x every valid selection x the 13 selection-preserving punctuation keys. Non-trivial: a list of length >= 3 returned after a punctuation key with non-zero selection, or a backspace returned a list; distinct by hash of the concrete trace (sweep: word, selection, key).";
 pub const ASSUMPTIONS: &[&str] = &[
     "selection bytes are valid for the list shown before (the statement's precondition)",
     "header-derived key -> character table",
@@ -151,12 +151,20 @@ impl Obs {
                     }
                 } else if let Some(t) = &self.twin.ctx {
                     twin_text = t.backspace(ctrl).ok().map(|r| r.text);
+                    // "in-progress composition" = what was composed since the last session boundary.  The twin
+                    // must not carry anything across a boundary on its own account (it runs the same engine):
+                    // after ctrl-backspace, and after a backspace that returned an empty suggestion, it is
+                    // replaced by a brand-new context.
+                    let ended = ctrl || matches!(s.outcome, Outcome::Suggestion(r) if r.lonely && r.text.is_empty());
+                    if ended {
+                        self.twin.sync(&cur);
+                    }
                 }
             }
             Ev::Commit(_) | Ev::Finish => {
                 self.model_text.clear();
-                if let Some(t) = &self.twin.ctx {
-                    let _ = t.finish();
+                if self.twin.ctx.is_some() {
+                    self.twin.sync(&cur);
                 }
             }
             Ev::Update(_) | Ev::Restart => {
